@@ -424,7 +424,7 @@ where
             scratch.available()
         );
 
-        let chunk_size: usize = bit_count.div_ceil(threads);
+        let chunk_size: usize = bit_count.div_ceil(threads).max(1);
 
         let (mut scratches, _) = scratch.split_mut(threads, scratch_thread_size);
 
